@@ -24,11 +24,23 @@ import numpy as np
 
 from common import qlit, zlit, dyadic, coqc_many, parse_evals, parse_zlist, frac, PY, REPO, VERIF
 
-THEOREMS = ["C14_history_independent_1d"]
+THEOREMS = ["C14_history_independent_1d", "C14_history_independent_2d", "C14_history_independent_3d",
+            "C14_value_is_cell_cubic_1d", "C14_value_is_tensor_cubic_2d", "C14_value_is_tensor_cubic_3d",
+            "C14_interpolates_nodes_1d", "C14_interpolates_nodes_2d", "C14_interpolates_nodes_3d",
+            "C14_reproduces_linear_1d", "C14_reproduces_bilinear_2d", "C14_reproduces_trilinear_3d",
+            "C14_function_bounds_irrelevant_1d", "C14_function_bounds_irrelevant_2d", "C14_function_bounds_irrelevant_3d",
+            "C14_outside_policy_1d", "C14_outside_policy_2d", "C14_outside_policy_3d",
+            "C14_accepted_axis_is_increasing", "C14_closed_form_solves_the_1d_system", "C14_1d_system_has_one_solution",
+            "C14_error_bound_partial"]
 
 EPS = 1.e-7
-VAL_TOL = 1e-9          # search: relative to the scale of the function
-ERR_MULT = 8.0          # search: |cached - f| <= ERR_MULT * h^2 * (sum of max |second derivatives|)
+VAL_TOL = 1e-9          # search: relative to the scale of the function, polynomial wrapped functions
+# search, non-polynomial wrapped functions (sin / exp): the code solves a 4x4 / 16x16 / 64x64 system and
+# expresses the cubic in the monomial basis about the ORIGIN of the raw coordinates, which costs digits
+# (measured on the unchanged tree over 900 objects of the thorough generator: 1-D 5e-13, 2-D 3.5e-10, 3-D 3.1e-7 of
+# the scale; steeper functions on finer 3-D grids reach 1e-4)
+SMOOTH_TOL = {1: 1e-10, 2: 1e-7, 3: 1e-4}
+ERR_MULT = 4.0          # search: |cached - f| <= ERR_MULT * h^2 * (sum of max |second derivatives|)
 
 
 # ---------------------------------------------------------------------------------------------
@@ -350,6 +362,12 @@ def judge_case(case, out, stats):
 
     def fail(claim, **kw):
         fails.append(dict(kw, claim=claim, case_id=case["id"]))
+    vtol = VAL_TOL if case["fn"]["kind"] == "poly" else SMOOTH_TOL[dim]
+    tag = "%dd_%s" % (dim, "poly" if case["fn"]["kind"] == "poly" else "smooth")
+
+    def peak(name, v):
+        d = stats.setdefault(name, {})
+        d[tag] = max(d.get(tag, 0.0), v)
     expect_ok = ctor_expected(case)
     if (out.get("ctor") == "ok") != expect_ok:
         fail("constructor accepts exactly min < max and resolution > 1e-7", ctor=out.get("ctor"))
@@ -374,6 +392,7 @@ def judge_case(case, out, stats):
         scale, M = fn_bounds(case["fn"], dim, pext)
         scale += 1.0 + fbmag
         info = {"step": si, "point": p}
+        VT = vtol
         if st["kind"] == 3:
             fail("evaluation raises only ValueError (outside the area)", got=st["value"], **info)
             continue
@@ -394,17 +413,17 @@ def judge_case(case, out, stats):
                 continue
             # (4) error bound: |cached - f| <= ERR_MULT h^2 M
             err = abs(st["value"] - fval)
-            bound = ERR_MULT * hmax * hmax * M + VAL_TOL * scale
+            bound = ERR_MULT * hmax * hmax * M + VT * scale
             if M > 0 and hmax > 0:
-                stats["max_err_ratio"] = max(stats["max_err_ratio"], (err - VAL_TOL * scale) / (hmax * hmax * M))
+                peak("max_err_over_h2_curvature", err / (hmax * hmax * M))
             if err > bound:
                 fail("approximates the wrapped function within %g * h^2 * max curvature" % ERR_MULT, got=st["value"],
                      f=fval, h=hmax, curvature=M, **info)
             # (3) multi-affine functions are reproduced exactly
             if is_multiaffine(case):
                 stats["affine_points"] += 1
-                stats["max_affine_err"] = max(stats["max_affine_err"], err / scale)
-                if err > VAL_TOL * scale:
+                peak("max_affine_err", err / scale)
+                if err > VT * scale:
                     fail("a function linear in each coordinate is reproduced exactly", got=st["value"], f=fval, **info)
         elif not in_nodes:
             stats["outside"] += 1
@@ -425,26 +444,27 @@ def judge_case(case, out, stats):
                 fail("function bounds do not change the result", with_bounds=[st["kind"], st["value"]], without=[nk, nv], **info)
             elif nk == 0:
                 d = abs(nv - st["value"]) if (math.isfinite(nv) and math.isfinite(st["value"])) else float("inf")
-                stats["max_fb_diff"] = max(stats["max_fb_diff"], d / scale)
-                if not d <= VAL_TOL * scale:
+                if math.isfinite(d):
+                    peak("max_fb_diff", d / scale)
+                if not d <= VT * scale:
                     fail("function bounds do not change the result", with_bounds=st["value"], without=nv, **info)
     # (2) sampling nodes
     scale, _ = fn_bounds(case["fn"], dim, ext)
     scale += 1.0 + fbmag
     for nvl in out.get("nodevals", []):
         stats["node_points"] += 1
-        if nvl["kind"] != 0 or not math.isfinite(nvl["value"]) or abs(nvl["value"] - nvl["f"]) > VAL_TOL * scale:
+        if nvl["kind"] != 0 or not math.isfinite(nvl["value"]) or abs(nvl["value"] - nvl["f"]) > vtol * scale:
             fail("equals the wrapped function at a sampling node", key=nvl["key"], point=nvl["p"],
                  got=[nvl["kind"], nvl["value"]], f=nvl["f"])
         else:
-            stats["max_node_err"] = max(stats["max_node_err"], abs(nvl["value"] - nvl["f"]) / scale)
+            peak("max_node_err", abs(nvl["value"] - nvl["f"]) / scale)
     return fails
 
 
 def shrink(case, claim, ctx):
     """drop points of the history while the same claim still fails; one batch of candidates per round"""
     cur = dict(case)
-    for rnd in range(4):
+    for rnd in range(12):
         cands = []
         n = len(cur["pts"])
         if n <= 1:
@@ -471,7 +491,7 @@ def shrink(case, claim, ctx):
 
 def new_stats():
     return {"degenerate_grid": 0, "inside": 0, "outside": 0, "shell": 0, "affine_points": 0, "fb_points": 0, "node_points": 0,
-            "max_err_ratio": 0.0, "max_affine_err": 0.0, "max_fb_diff": 0.0, "max_node_err": 0.0}
+            "max_err_over_h2_curvature": {}, "max_affine_err": {}, "max_fb_diff": {}, "max_node_err": {}}
 
 
 # ---------------------------------------------------------------------------------------------
@@ -519,7 +539,7 @@ def run(ctx):
                 cases.append(c)
     n_corpus = len(cases)
     # ---- generated cases --------------------------------------------------------------------------
-    n_hist = {1: 70, 2: 40, 3: 16} if quick else {1: 1500, 2: 900, 3: 300}
+    n_hist = {1: 70, 2: 28, 3: 10} if quick else {1: 1500, 2: 900, 3: 300}
     n_ctor = 24 if quick else 200
     n_smooth = {1: 30, 2: 20, 3: 10} if quick else {1: 400, 2: 300, 3: 100}
     for dim in (1, 2, 3):
@@ -532,19 +552,41 @@ def run(ctx):
         for i in range(n_smooth[dim]):
             cases.append(gen_case(rng, len(cases), dim, quick, exact=bool(i % 2), smooth=True))
     t0 = time.time()
-    outs, err = run_impl(cases, "main", timeout=600 if quick else 3000)
-    ctx.log("implementation: %d cases run in %.1fs" % (len(outs), time.time() - t0))
-    if err:
-        k = len(outs)
-        bad = cases[k] if k < len(cases) else None
-        ctx.obligation("implementation ran on every generated case", "correspondence", False, json.dumps(err)[:1500])
+    n_generated = len(cases)
+    for c in cases[n_coq_cases:]:
+        c["search_only"] = True
+    # run the implementation; a crash / hang of the child process is pinned to the case that was running
+    # (progress file), reported, and the remaining cases are run in a new child process
+    kept, outs, remaining = [], [], cases
+    for attempt in range(6):
+        o, err = run_impl(remaining, "main%d" % attempt, timeout=600 if quick else 3000)
+        if not err:
+            kept += remaining[:len(o)]
+            outs += o
+            break
+        ci = culprit_index(err)
+        if ci is None or ci >= len(remaining):
+            ci = min(len(o), len(remaining) - 1)
+        ndone = min(len(o), ci)
+        kept += remaining[:ndone]
+        outs += o[:ndone]
+        bad = remaining[ci]
+        ctx.obligation("implementation ran on generated case %s" % bad["id"], "correspondence", False, json.dumps(err)[:1500])
         ctx.violation("c14:crash", "the implementation crashed / hung / could not be imported while evaluating a generated case "
-                      "(child process exit %s)" % err["returncode"], {"case": bad, "error": err}, found=bad is not None)
-        cases = cases[:k]
+                      "(Caching%dD, child process exit %s)" % (bad["dim"], err["returncode"]),
+                      {"case": bad, "error": err}, found=True)
+        remaining = remaining[ndone:ci] + remaining[ci + 1:]
+        if not remaining or err["returncode"] in (1, 2):     # import error / usage error: no point in retrying
+            break
+    cases = kept
+    by_id = {c["id"]: c for c in cases}
+    ctx.log("implementation: %d of %d cases run in %.1fs" % (len(outs), n_generated, time.time() - t0))
     # ---- Coq correspondence ------------------------------------------------------------------------
     texts, owners = [], []
     cost = []
-    for c, o in zip(cases[:n_coq_cases], outs[:n_coq_cases]):
+    for c, o in zip(cases, outs):
+        if c.get("search_only"):
+            continue
         if o.get("ctor") == "ok":
             for t, a in coq_axis_cases(c, o):
                 texts.append(t)
@@ -608,25 +650,24 @@ def run(ctx):
     for f in all_fails:
         # prefer a failure in a case that also disagrees with the model, then the shortest history
         key = f["claim"]
-        c = cases[f["case_id"]]
+        c = by_id[f["case_id"]]
         rank = (0 if f["case_id"] in diff_ids else 1, len(c["pts"]))
         if key not in by_claim or rank < by_claim[key][0]:
             by_claim[key] = (rank, f)
     for claim, (_, f) in list(by_claim.items())[:5]:
-        c = cases[f["case_id"]]
+        c = by_id[f["case_id"]]
         small = shrink(c, claim, ctx) if c["pts"] else c
         ctx.violation("c14:" + claim[:48], claim + " -- fails on the implementation (Caching%dD)" % c["dim"],
                       {"case": small, "failure": f, "original_history_length": len(c["pts"])}, found=True)
     if diff and not all_fails:
         for cid, what in diff[:3]:
-            c = cases[cid]
+            c = by_id[cid]
             ctx.violation("c14-diff:%dd:%s" % (c["dim"], what.rstrip("012")),
                           "model and implementation disagree (%s of a Caching%dD case: exception kind, calls to the wrapped "
                           "function, value, cached cells or node positions); the executable property found no failing input"
                           % (what, c["dim"]), {"case": c, "what": what, "correspondence": "coq/Gen/C14/cases_*.v"}, found=False)
 
     # ---- coverage ----------------------------------------------------------------------------------
-    hist_cases = [c for c in cases[:n_coq_cases] if c["pts"]]
     dist = {"by_dim": {}, "fb_class": {}, "degree_class": {}, "point_class": {}, "no_boundary_error": 0,
             "nodes_per_axis": {}, "history_length": {"min": None, "max": None}}
     n_eval = 0
@@ -661,7 +702,7 @@ def run(ctx):
         dist["history_length"]["max"] = L if dist["history_length"]["max"] is None else max(L, dist["history_length"]["max"])
     dist.update({"evaluations_raising": err_steps, "evaluations_filling_a_cell": new_cell_steps,
                  "evaluations_on_cached_cell_or_direct": cached_cell_steps, "constructor_cases": n_ctor,
-                 "corpus_cases": n_corpus, "smooth_function_cases(search only)": len(cases) - n_coq_cases,
+                 "corpus_cases": n_corpus, "smooth_function_cases(search only)": sum(1 for c in cases if c.get("search_only")),
                  "search_point_counts": {k: v for k, v in stats.items() if not k.startswith("max_")}})
     # non-trivial: a history in which a cell is evaluated after a neighbouring cell (sharing nodes) was filled, or a
     # cell is revisited: exactly the situations in which lazily filled state is reused
